@@ -44,6 +44,12 @@ Inductive case :=
 (** Slow retry-able replies: every attempt takes >= delay_ns at the collector and asks for delay_ns more (in the unit
     the client reads); MaxElapsedTime < 2 * delay_ns. *)
 | CSlow (exporter : N) (delay_ns max_ns : Z) (attempts : nat) (err : N) (elapsed_ns : Z)
+(** Export with a context that expires after 300 ms against a collector that always fails retry-ably, MaxElapsedTime 0,
+    InitialInterval [initial_ns]: did the export return within 300 ms + 5 s, and with which error class. *)
+| CCtxExpiry (exporter : N) (initial_ns : Z) (attempts : nat) (returned : bool) (err : N)
+(** Consecutive exports on ONE exporter, every one answered with the same partial success: per export its error
+    class and the partial-success reports the handler received during it. *)
+| CPartialRepeat (exporter : N) (errs reports : list N)
 | CBurst (exporter : N) (gzip : bool) (attempts : nat) (decoded : list N) (own : list bool) (err handled : N).
 
 Definition flag (b : bool) (code : N) : list N := if b then [] else [code].
@@ -131,6 +137,17 @@ Definition check_case (c : case) : list N :=
                          [ORetry delay_ns; ORetry delay_ns; ORetry delay_ns] in
       flag (Nat.eqb (Types.attempts m) attempts && (class_of_result (res m) =? err)%N) V_MISMATCH ++
       flag (slow_attempt_ok max_ns attempts err elapsed_ns) V_SPECFAIL
+  | CCtxExpiry exporter initial_ns attempts returned err =>
+      (* since 4b7b30b wait() reports a done context whatever the delay: every export returns (model: one more attempt at most) *)
+      flag returned V_MISMATCH ++ flag (ctx_expiry_ok returned err) V_SPECFAIL
+  | CPartialRepeat exporter errs reports =>
+      (* each export is a run of its own: delivered, reported once *)
+      let o := retry_run (fun _ => 0) (fun _ => 0) (fun _ => 0) (fun _ _ => false)
+                         {| Model.enabled := true; max_elapsed := 0 |} [OSuccess (Model.reports (Partial 4 true))] in
+      flag (forallb (fun e => (class_of_result (res o) =? e)%N) errs &&
+            forallb (fun r => (N.of_nat (Types.handled o) =? r)%N) reports) V_MISMATCH ++
+      flag (Nat.eqb (length errs) (length reports) && negb (Nat.eqb (length errs) 0) &&
+            forallb (fun e => partial_ok (Partial 4 true) e 1) errs && forallb (N.eqb 1) reports) V_SPECFAIL
   | CBurst exporter gzip attempts decoded own err handled =>
       let m := model_run true 0 None [RespHttp 503 None false; RespHttp 200 None false] in
       flag (Nat.eqb (Types.attempts m) attempts && (class_of_result (res m) =? err)%N &&
